@@ -80,6 +80,10 @@ def make_case(rng, fmt):
         for a, b in zip(cuts, cuts[1:]):
             r = add(a, b, family=fam)
             r["reactants"], r["products"] = list(fam_names), list(prod)
+    if fmt == "uclchem":
+        # UCLCHEM-format networks always carry H2 (a network without it is the known C10 finding, not C06's subject)
+        add(unb_lo, unb_hi)
+        reacs[-1]["reactants"], reacs[-1]["products"] = ["H", "H"], ["H2"]
     if fmt == "krome":
         for r in reacs:
             def enc(v, upper):
